@@ -161,6 +161,31 @@ async fn child(case: &PushCase) -> ChildOut {
 
 pub struct PushFam;
 
+/// Run one history in a fresh child process and return what the reference server observed.
+pub fn run_child(case: &PushCase) -> Result<ChildOut, Fail> {
+    let exe = std::env::current_exe().map_err(|e| infra(format!("current_exe: {e}")))?;
+    let json = serde_json::to_string(case).unwrap();
+    let o = std::process::Command::new(exe).arg("c19-child").arg(&json).output().map_err(|e| infra(format!("spawn child: {e}")))?;
+    if !o.status.success() {
+        return Err(Fail::new("C19.bad", "C19.child-died", format!("the child process died: {:?}; stderr: {}", o.status, String::from_utf8_lossy(&o.stderr).chars().take(600).collect::<String>())));
+    }
+    let text = String::from_utf8_lossy(&o.stdout);
+    let line = text.lines().last().unwrap_or("");
+    serde_json::from_str(line).map_err(|e| infra(format!("child output not parseable: {e}: {line:?}")))
+}
+
+pub fn fam_md5(j: u8) -> String {
+    md5_of(fam_scheme(j).as_bytes())
+}
+
+pub fn fam_line_size(j: u8, k: usize) -> usize {
+    fam_size(j, k)
+}
+
+pub fn split_packets(frames: &[(u8, u32, usize)]) -> Vec<(usize, bool, bool)> {
+    packets(frames)
+}
+
 /// Split the frames into packets. The child's call pattern is known: the first packet starts with
 /// the settings frame (settings + SYN + destination), every keep-alive request and every data
 /// frame after the destination is a write call of its own, i.e. starts a new packet; padding
@@ -356,15 +381,7 @@ impl Family for PushFam {
     }
     fn run(&self, case: &PushCase, cx: &CaseCtx) -> CaseResult {
         let mut out = Outcome::new();
-        let exe = std::env::current_exe().map_err(|e| infra(format!("current_exe: {e}")))?;
-        let json = serde_json::to_string(case).unwrap();
-        let o = std::process::Command::new(exe).arg("c19-child").arg(&json).output().map_err(|e| infra(format!("spawn child: {e}")))?;
-        if !o.status.success() {
-            return Err(Fail::new("C19.bad", "C19.child-died", format!("the child process died: {:?}; stderr: {}", o.status, String::from_utf8_lossy(&o.stderr).chars().take(600).collect::<String>())));
-        }
-        let text = String::from_utf8_lossy(&o.stdout);
-        let line = text.lines().last().unwrap_or("");
-        let child: ChildOut = serde_json::from_str(line).map_err(|e| infra(format!("child output not parseable: {e}: {line:?}")))?;
+        let child = run_child(case)?;
         let (a, b) = judge(case, &child, cx)?;
         out.nt(a || b || case.sessions.len() >= 2);
         out.class_if(a, "push-after-default-initialised");
